@@ -228,7 +228,14 @@ pub fn gen_hash_length() -> usize {
 }
 
 pub fn gen_buffers() -> usize {
-    *t(|t| t.pick(&[1usize, 2, 3, 8, 64]))
+    // (one in six far beyond anything a machine has cores for: the count is the user's to choose,
+    // and nothing but the degree of concurrency may depend on it -- S12-A clamps the maximum
+    // chunk size to 1 GiB / (2 n))
+    let n = *t(|t| t.pick(&[1usize, 2, 3, 8, 64, 1, 2, 3, 8, 64, 4096, 100_000]));
+    if n > 64 {
+        simkit::count("probe:buffered-chunks-in-the-thousands");
+    }
+    n
 }
 
 #[derive(Clone, Debug)]
